@@ -158,7 +158,7 @@ def run(chk, treemc_exe):
             chk.violation('switch/rejects-valid/' + name, '%s: status %d: %s' % (src, r.status, r.err[:200]), files={'input.c': src.encode()}, cmd='$CPROC_QBE input.c')
     return {'distinct_tree_states_replayed': len(states), 'key_maps': [m[0] for m in MAPS], 'functions_executed': nfun, 'units': executed,
             'probe_evaluations': evals, 'distinct_outputs': len(outs), 'accept_reject_cases': nrej,
-            'samples': [{'state_history_ranks': list(states[len(states) // 2]), 'unit_excerpt': gen_unit(states[len(states) // 2:len(states) // 2 + 1], MAPS[0], 0)[0][:600]}]}
+            'samples': [{'state_history_ranks': list(states[len(states) // 2]), 'unit_excerpt': gen_unit(states[len(states) // 2:len(states) // 2 + 1], MAPS[0], 0)[0][:600]}] if states else []}
 
 
 def first_diff(got, ref):
